@@ -1,5 +1,5 @@
 (* C05 — Cash and shares are conserved; holdings equal endowment plus own fills. *)
-Require Import Pams.Prelude Pams.Match Pams.Market Pams.Sim Pams.SimLift Pams.SimInv Pams.SimProps Pams.SimHoldCb.
+Require Import Pams.Prelude Pams.Match Pams.Market Pams.Sim Pams.SimLift Pams.SimInv Pams.SimProps Pams.SimHoldCb Pams.SimConserve.
 Open Scope Z_scope.
 
 (* For EVERY configuration (markets, index markets, agents, sessions, any set of built-in and probe events), every tape of
@@ -30,6 +30,43 @@ Theorem C05_one_fill_conserves_cash_and_shares : forall ags mk t ba sa bi si p v
   map a_id ags' = map a_id ags.
 Proof. exact fill_conserves_cash_and_shares. Qed.
 Print Assumptions C05_one_fill_conserves_cash_and_shares.
+
+
+(* CONSERVATION OVER A WHOLE RUN.  For every configuration whose agent ids are distinct and whose agents all hold a (possibly zero)
+   position in every market - outside this guard the real code raises KeyError in Simulator._update_agents_for_execution, which the
+   model does not reproduce - every tape, every agent behaviour, every set of events and every fundamental path: a run that ends
+   without exception leaves the total cash and, market by market, the total number of shares exactly as they were at the start, and
+   the population of agents is the same.  Proof: every fill of such a run names a configured market and two existing agents
+   (SimConserve.fills_known, from the callback theorem of C11 and a lifted invariant), so the pairwise transfer applies to each. *)
+Theorem C05_a_run_conserves_cash_and_shares : forall c tape batches funds,
+  let s0 := init_sim c tape batches funds in
+  let s := run c tape batches funds in
+  NoDup (map a_id (s_agents s0)) -> covers (mids s0) (s_agents s0) -> ok s = true ->
+  (total_cash (s_agents s) == total_cash (s_agents s0))%Q /\
+  (forall m, total_asset m (s_agents s) = total_asset m (s_agents s0)) /\
+  map a_id (s_agents s) = map a_id (s_agents s0).
+Proof. exact run_conserves_cash_and_shares. Qed.
+Print Assumptions C05_a_run_conserves_cash_and_shares.
+
+(* the premises are met by a run with a fill: 2 shares go from agent 0 to agent 1 at 100, cash 200 the other way *)
+Example C05_run_nonvacuous :
+  let c := mkCfg [mkMC 0 (1#1) (100#1) None 1] [mkAC 0 false (1000#1) [(0, 10)]; mkAC 1 false (1000#1) [(0, 10)]]
+                 [mkSC 0 2 true true 2 1 (0#1)] [] in
+  let tape := [TPerm [0; 1]; TPerm [0; 1]; TDraw (1#2); TDraw (1#2);
+               TPerm [0; 1]; TPerm [0]; TDraw (1#2)]%nat in
+  let batches := [(0, [RNew 1 0 0 false (Some (100#1)) 5 None]); (1, [RNew 2 1 0 true (Some (100#1)) 2 None]);
+                  (0, [Sim.RCancel 1 0 0]); (1, [])] in
+  let funds := [(0, 0, 100#1); (0, 1, 100#1); (0, 2, 100#1)] in
+  let s0 := init_sim c tape batches funds in
+  let s := run c tape batches funds in
+  ok s = true /\ NoDup (map a_id (s_agents s0)) /\ covers (mids s0) (s_agents s0) /\
+  map a_cash (s_agents s) = [1200#1; 800#1] /\ map a_assets (s_agents s) = [[(0, 8)]; [(0, 12)]].
+Proof.
+  cbv zeta. split; [vm_compute; reflexivity|]. split.
+  - vm_compute. repeat constructor; simpl; intuition discriminate.
+  - split; [|vm_compute; auto]. intros a mk Ha Hm. vm_compute in Ha, Hm.
+    destruct Hm as [<-|[]]. destruct Ha as [<-|[<-|[]]]; vm_compute; discriminate.
+Qed.
 
 
 (* WHAT AN AGENT SEES WHEN CALLED BACK: in any run, for every callback, the holdings handed to the agent are its endowment
